@@ -47,7 +47,7 @@ func externalMods(callee *ssa.Function, c *ssa.CallCommon) []string {
 		}
 		return []string{ghBuf}
 	case n == "container/heap.Push", n == "container/heap.Pop", n == "container/heap.Fix", n == "container/heap.Init", n == "container/heap.Remove":
-		return []string{"M$Slice", "E$Int", "F$Bar$index"}
+		return []string{"M$Slice", "E$Int", "F$Bar$index", ghInHeap, ghHord, ghHbound, ghHdirty}
 	case n == "sort.Sort", n == "sort.Stable":
 		return []string{modAll}
 	case n == "io.Copy", n == "io.CopyN", n == "io.CopyBuffer":
@@ -357,8 +357,59 @@ func (x *Exec) externalIface(st *State, site ssa.Instruction, c *ssa.CallCommon,
 }
 
 // heapModel: assumed contract of container/heap on a *priorityQueue (the only heap.Interface
-// in the module). Push: the queue gains exactly x; Pop: it loses exactly the returned
-// element, which is non-nil when the queue held no nil; index fields are re-assigned.
+// in the module), parametric in the interface methods whose own contracts are verified
+// (Swap keeps index fields consistent, Push appends and sets the index, Pop removes the last
+// element and sets its index to -1). Ghost state of the model:
+//
+//	inheap(b)   membership of a bar in the queue
+//	hord        the heap order holds (every Push/Fix/Pop keeps it; a direct write of a bar's
+//	            priority clears it; it holds again when the queue is empty)
+//	hbound      when hord: an upper bound of the priorities in the queue (the last popped one)
+//
+// Push: the queue gains exactly x. Pop: it loses exactly the returned element, which was a
+// member; when hord its priority is the largest, i.e. >= every remaining one. Fix(i) with the
+// single out-of-place element at i restores hord.
+const (
+	ghInHeap = "#inheap"
+	ghHord   = "#hord"
+	ghHbound = "#hbound"
+	ghHdirty = "#hdirty"
+)
+
+func init() {
+	heapSorts[ghInHeap] = ArrSort(SInt, SBool)
+}
+
+func (st *State) ghostBool(name string) *Term {
+	if t, ok := st.ghost[name]; ok {
+		return t
+	}
+	vn := fmt.Sprintf("%s@%d", smtName(name), st.epoch)
+	if b := st.bump[name]; b > 0 {
+		vn = fmt.Sprintf("%s_k%d", vn, b)
+	}
+	t := Var(vn, SBool)
+	st.ghost[name] = t
+	return t
+}
+
+// pqWF: every element of the queue is a non-nil member whose index field is its position.
+func (x *Exec) pqWF(st *State, sl *Term) *Term {
+	ek := regHeap("E$Int", ArrSort(SInt, ArrSort(SInt, SInt)))
+	idxKey := regHeap("F$Bar$index", ArrSort(SInt, SInt))
+	bv := Var("bv!q", SInt)
+	inner := Select(st.heapArr(ek, heapSorts[ek]), sliceAcc(sl, 0))
+	el := sgetTerm(st, inner, sliceAcc(sl, 1), bv)
+	body := And(Neq(el, Zero), Eq(Select(st.heapArr(idxKey, heapSorts[idxKey]), el), bv), Select(st.heapArr(ghInHeap, heapSorts[ghInHeap]), el))
+	fwd := Forall([]*Term{bv}, Implies(And(Le(Zero, bv), Lt(bv, sliceAcc(sl, 2))), body))
+	// converse: a member's index field is a valid position holding that very member
+	rv := Var("bv!r", SInt)
+	ix := Select(st.heapArr(idxKey, heapSorts[idxKey]), rv)
+	member := Select(st.heapArr(ghInHeap, heapSorts[ghInHeap]), rv)
+	back := Forall([]*Term{rv}, Implies(member, And(Le(Zero, ix), Lt(ix, sliceAcc(sl, 2)), Eq(Select(inner, Add(sliceAcc(sl, 1), ix)), rv))))
+	return And(fwd, back)
+}
+
 func (x *Exec) heapModel(st *State, site ssa.Instruction, callee *ssa.Function, c *ssa.CallCommon, args []Val, res ssa.Value) bool {
 	h := x.term(st, args[0], c.Args[0].Type())
 	theU.DeclFunc("unbox!Int", SInt, SInt)
@@ -367,18 +418,45 @@ func (x *Exec) heapModel(st *State, site ssa.Instruction, callee *ssa.Function, 
 	cur := Select(st.heapArr(mk, heapSorts[mk]), pq)
 	oldLen := sliceAcc(cur, 2)
 	ek := regHeap("E$Int", ArrSort(SInt, ArrSort(SInt, SInt)))
-	idxKey := "F$Bar$index"
-	if _, ok := heapSorts[idxKey]; !ok {
-		heapSorts[idxKey] = ArrSort(SInt, SInt)
-	}
+	idxKey := regHeap("F$Bar$index", ArrSort(SInt, SInt))
+	prioKey := regHeap("F$Bar$priority", ArrSort(SInt, SInt))
+	wfBefore := x.pqWF(st, cur)
+	inheap0 := st.heapArr(ghInHeap, heapSorts[ghInHeap])
+	hord0 := st.ghostBool(ghHord)
+	hbound0 := st.ghostInt(ghHbound)
 	nv := x.freshVar("pq", Sort(sliceDT))
 	st.add(rangeFacts(nv, types.NewSlice(types.Typ[types.Int]))...)
 	x.allocFactsLoose(st, sliceAcc(nv, 0), types.NewPointer(types.Typ[types.Int]))
+	barT := x.P.lookupTypeName(modulePath, "Bar")
+	var pt types.Type
+	if barT != nil {
+		pt = types.NewPointer(barT.Type())
+	}
+	prio := func(b *Term) *Term { return Select(st.heapArr(prioKey, heapSorts[prioKey]), b) }
 	switch callee.Name() {
 	case "Push":
+		xv := x.term(st, args[1], c.Args[1].Type())
+		bar := xv
+		if pt != nil {
+			x.oblige(st, "pre", fmt.Sprintf("#%d:heap.Push:bar", x.ordinal("pre", site)), And(x.hasType(st, xv, pt), Neq(x.unbox(xv, pt), Zero)), site.Pos(),
+				"heap.Push receives a non-nil *Bar (precondition of priorityQueue.Push)")
+			bar = x.unbox(xv, pt)
+		}
+		x.oblige(st, "pre", fmt.Sprintf("#%d:heap.Push:fresh", x.ordinal("pre", site)), Not(Select(inheap0, bar)), site.Pos(),
+			"a bar handed to heap.Push is not already in the queue (never twice)")
 		x.havoc(st, map[string]bool{ek: true, idxKey: true})
 		st.add(Eq(sliceAcc(nv, 2), Add(oldLen, One)))
 		st.heap[mk] = Store(st.heapArr(mk, heapSorts[mk]), pq, nv)
+		st.heap[ghInHeap] = Store(inheap0, bar, True)
+		st.add(Implies(wfBefore, x.pqWF(st, nv)))
+		hb := x.freshVar("hbound", SInt)
+		st.add(Implies(hord0, And(Ge(hb, hbound0), Ge(hb, prio(bar)))))
+		st.ghost[ghHbound] = hb
+		// order is kept when it held; an empty queue is trivially ordered
+		ho := x.freshVar("hord", SBool)
+		st.add(Implies(Or(hord0, Eq(oldLen, Zero)), ho))
+		st.add(Implies(Eq(oldLen, Zero), Eq(hb, prio(bar))))
+		st.ghost[ghHord] = ho
 	case "Pop":
 		x.oblige(st, "pre", fmt.Sprintf("#%d:heap.Pop:nonempty", x.ordinal("pre", site)), Gt(oldLen, Zero), site.Pos(), "heap.Pop on a non-empty heap")
 		x.havoc(st, map[string]bool{ek: true, idxKey: true})
@@ -386,22 +464,43 @@ func (x *Exec) heapModel(st *State, site ssa.Instruction, callee *ssa.Function, 
 		st.heap[mk] = Store(st.heapArr(mk, heapSorts[mk]), pq, nv)
 		r := x.freshVar("popped", SInt)
 		st.add(Gt(r, Zero))
-		barT := x.P.lookupTypeName(modulePath, "Bar")
-		if barT != nil {
-			pt := types.NewPointer(barT.Type())
+		bar := r
+		if pt != nil {
 			tag := IntLit(int64(x.P.typeTag(pt)))
 			st.add(Eq(App("typeof", SInt, r), tag))
-			ub := x.unbox(r, pt)
-			st.add(Gt(ub, Zero))
+			bar = x.unbox(r, pt)
+			st.add(Implies(wfBefore, Gt(bar, Zero)))
 		}
+		st.add(Implies(wfBefore, Select(inheap0, bar)))
+		st.heap[ghInHeap] = Store(inheap0, bar, False)
+		st.add(Implies(wfBefore, Eq(Select(st.heapArr(idxKey, heapSorts[idxKey]), bar), IntLit(-1))))
+		st.add(Implies(wfBefore, x.pqWF(st, nv)))
+		// ordered: the popped priority is the largest; it bounds what remains
+		st.add(Implies(hord0, Le(prio(bar), hbound0)))
+		hb := x.freshVar("hbound", SInt)
+		st.add(Implies(hord0, Eq(hb, prio(bar))))
+		st.ghost[ghHbound] = hb
+		ho := x.freshVar("hord", SBool)
+		st.add(Implies(Or(hord0, Eq(oldLen, One)), ho))
+		st.ghost[ghHord] = ho
 		x.setResult(st, res, Val{T: r})
 	case "Fix":
 		i := x.term(st, args[1], c.Args[1].Type())
-		// container/heap.Fix(h, i) indexes h[i] through Less/Swap: in range, or the heap is empty and i == 0 is tolerated by down()
-		x.oblige(st, "pre", fmt.Sprintf("#%d:heap.Fix:index", x.ordinal("pre", site)), And(Ge(i, Zero), Lt(i, oldLen)), site.Pos(), "heap.Fix index within the heap")
+		// container/heap.Fix(h, i) reaches Less(i, parent): i must be a valid index (i == 0 is tolerated on an empty heap)
+		x.oblige(st, "pre", fmt.Sprintf("#%d:heap.Fix:index", x.ordinal("pre", site)), And(Ge(i, Zero), Or(Lt(i, oldLen), Eq(i, Zero))), site.Pos(), "heap.Fix index within the heap")
+		dirtyEl := st.ghostInt(ghHdirty)
+		inner := Select(st.heapArr(ek, heapSorts[ek]), sliceAcc(cur, 0))
+		elAtI := Select(inner, Add(sliceAcc(cur, 1), i))
 		x.havoc(st, map[string]bool{ek: true, idxKey: true})
 		st.add(Eq(sliceAcc(nv, 2), oldLen))
 		st.heap[mk] = Store(st.heapArr(mk, heapSorts[mk]), pq, nv)
+		st.add(Implies(wfBefore, x.pqWF(st, nv)))
+		ho := x.freshVar("hord", SBool)
+		st.add(Implies(Or(hord0, Eq(dirtyEl, elAtI)), ho))
+		st.ghost[ghHord] = ho
+		hb := x.freshVar("hbound", SInt)
+		st.add(Implies(ho, And(Ge(hb, hbound0), Ge(hb, prio(elAtI)))))
+		st.ghost[ghHbound] = hb
 	}
 	return true
 }
